@@ -107,6 +107,30 @@ Json gen(sim::Rng& rng, int tier)
             conns.push(b);
         }
     }
+    // a busy worker: one keep-alive client keeps the only worker in a slow handler (0.6..1.6 s each, back to back) for the
+    // whole run, so that the idle scan's timer has expired more than once whenever the worker gets back to it and input,
+    // ticks and writable events come in batches. Only stalls far beyond the time-outs are judged here (a request that
+    // arrives in time while the worker is busy is *seen* late by the server, which the statement does not settle).
+    if (rng.chance(0.12)) {
+        long busy_ms = static_cast<long>(600 + rng.below(1000));
+        p["busy_ms"] = busy_ms;
+        p["workers"] = 1;
+        conns = Json::array();
+        static const char* points[] = { "connect", "line", "headers", "body" };
+        int k = static_cast<int>(rng.range(1, 3));
+        for (int i = 0; i < k; ++i) {
+            Json c = Json::object();
+            c["tag"] = static_cast<long long>(++tag);
+            c["start_us"] = static_cast<int>(rng.below(900000));
+            c["kind"] = "time";
+            std::string pt = points[rng.below(4)];
+            c["stall_point"] = pt;
+            long T = pt == "body" ? B : std::min(H, B);
+            c["stall_ms"] = T + kScanMs + kMarginMs + 4 * busy_ms + static_cast<long>(rng.below(1500));
+            c["body_len"] = static_cast<int>(10 + rng.below(40));
+            conns.push(c);
+        }
+    }
     p["conns"] = conns;
     for (size_t i = 0; i < conns.size(); ++i)
         if (conns.at(i).str("kind") == "time" && L < 256) p["max_req"] = 256L; // the stalled request itself must fit
@@ -243,6 +267,21 @@ void run(const Json& plan)
             cp.cl->start(c.num("start_us", 0) * 1000);
         cps.push_back(cp);
     }
+    std::shared_ptr<actors::Client> busy_client;
+    const i64 busy_ms = std::max<i64>(0, std::min<i64>(plan.num("busy_ms", 0), 3000));
+    if (busy_ms > 0) {
+        using actors::Step;
+        std::vector<Step> bs { httpw::step(Step::Connect) };
+        int count = static_cast<int>(std::min<i64>(60, (longest / 1000000LL + 3000) / busy_ms + 2));
+        for (int k = 0; k < count; ++k) {
+            bs.push_back(httpw::send_step(actors::http_request("GET", "/busy/" + std::to_string(busy_ms * 1000) + "/b" + std::to_string(k), { { "Host", "s" } }, "")));
+            bs.push_back(httpw::step(Step::Await, (busy_ms + 8000) * 1000000LL, k + 1));
+        }
+        bs.push_back(httpw::step(Step::Close));
+        busy_client = std::make_shared<actors::Client>(900, port, bs);
+        busy_client->start(0);
+        r.probe("busy-worker");
+    }
     const std::function<bool()> all_done = [&] {
         for (auto& c : cps)
             if (!c.cl->finished()) return false;
@@ -309,6 +348,7 @@ void run(const Json& plan)
     if (worker_threads.size() > 1) r.probe("several-workers-used");
     for (auto& cp : cps)
         if (cp.cl->sock && !cp.cl->st.closed_by_us) cp.cl->sock->close();
+    if (busy_client && busy_client->sock && !busy_client->st.closed_by_us) busy_client->sock->close();
     w.stop();
 }
 
